@@ -1,0 +1,36 @@
+// Copyright (C) 2026 Storj Labs, Inc.
+// See LICENSE for copying information.
+
+//go:build verif
+
+package drpcerr
+
+// Machine-checked contracts for this package (read by /verif/govc; comment-only).
+//
+// chainCode is the reference meaning of "the code attached to an error at any depth of wrapping":
+// the code of the first link, following Cause before Unwrap, that has a Code method; 0 if the chain
+// ends without one. Error methods are assumed pure (uninterpreted functions of the value).
+
+//@ spec eHasCode(e error) bool = hasMethods(e, "interface{Code() uint64}")
+//@ spec eHasCause(e error) bool = hasMethods(e, "interface{Cause() error}")
+//@ spec eHasUnwrap(e error) bool = hasMethods(e, "interface{Unwrap() error}")
+//@ uninterp chainCode(e error) uint64
+//@ axiom forall e error :: chainCode(e) == ite(eHasCode(e), methodU64(e, "Code"),
+//@        ite(eHasCause(e), chainCode(methodErr(e, "Cause")), ite(eHasUnwrap(e), chainCode(methodErr(e, "Unwrap")), 0)))
+
+//@ extern shallowEqual(x, y) (eq bool)
+//@   ensures eq ==> x == y
+
+// Code returns chainCode(err) whenever it returns through a link it reached; the any-depth clause
+// additionally demands the reference value on every exit (including the 100-link guard).
+//@ func Code
+//@   props C10 C13
+//@   loop 1 invariant [i]     0 <= i && i <= 100
+//@   loop 1 invariant [chain] chainCode(err) == chainCode(err0)
+//@   ensures [C10.found]     result != 0 ==> result == chainCode(err)
+//@   ensures [C10.any-depth] result == chainCode(err)
+
+//@ func WithCode
+//@   props C10
+//@   ensures [nil]  (err == nil || code == 0) ==> result == err
+//@   ensures [code] err != nil && code != 0 ==> result != nil && chainCode(result) == code && methodStr(result, "Error") == methodStr(err, "Error")
